@@ -121,7 +121,7 @@ def build(spec, tier):
             "-I" + os.path.join(VERIF, "contracts"), "-I" + os.path.join(VERIF, "harness"), "-I" + d]
     dd = dict(spec.get("defs", {}))
     dd.update(spec.get("defs_" + tier, {}))
-    defs = ["-DNDEBUG", "-DREPROC_MULTITHREADED", "-DREPROC_VERIF", "-DVERIF_NATIVE"] + \
+    defs = [x for x in ["-DNDEBUG", "-DREPROC_MULTITHREADED", "-DREPROC_VERIF", "-DVERIF_NATIVE"] if x[2:] not in spec.get("undef", [])] + \
            ["-D%s=%s" % (k, v) if v is not None else "-D%s" % k for k, v in dd.items()]
     gen_includes(spec, d, defs, incs)
     pre = ["-include", os.path.join(VERIF, "os", "rename.h")]
